@@ -273,7 +273,9 @@ impl DhtHandler {
                               k.0 == a.info_hash && sa_ip(k.1) == sa_ip(addr) && sa_is_v4(k.1) == sa_is_v4(addr)
                               && (a.port is Some ==> sa_port(k.1) == a.port->0) && (a.port is None ==> k.1 == addr)
                               && final(self).active_stores.expires@.drop_last() == e0.filter(not_key(k)) }))
-                &&& (r.body is Error && r.body->Error_0.code == 202 ==> final(self).active_stores.expires@ == e0 && e0.len() >= 500) }), // @C07.announce_stores_source_ip_with_port_or_refuses_202
+                &&& (r.body is Error && r.body->Error_0.code == 202 ==> final(self).active_stores.expires@ == e0 && e0.len() >= 500)
+                // a refused announce (203 or 202) stores nothing: only pairs that were successfully announced are ever handed out
+                &&& (r.body is Error ==> forall|k: Key| #[trigger] e_has(final(self).active_stores.expires@, k) ==> e_has(old(self).active_stores.expires@, k)) }), // @C07.announce_stores_source_ip_with_port_or_refuses_202
             // ---- C17: every reply fits the 1500-byte receive buffer of its peer (transaction ids up to 32 bytes)
             !old(self).read_only && message.transaction_id@.len() <= 32 && (message.body matches MessageBody::Request(Request::Ping(_))) ==> blen(reply(delta(old(tr).ev, final(tr).ev))) <= 1500, // @C17.ping_reply_fits_1500_bytes
             !old(self).read_only && message.transaction_id@.len() <= 32 && (message.body matches MessageBody::Request(Request::FindNode(_))) ==> blen(reply(delta(old(tr).ev, final(tr).ev))) <= 1500, // @C17.find_node_reply_fits_1500_bytes
@@ -445,6 +447,7 @@ impl DhtHandler {
                 } else {
                     // Node unsuccessfully stored the value with us, send them an error message
                     // TODO: Spec doesnt actually say what error message to send, or even if we should send one...
+                    proof { lemma_e_filter(old(self).active_stores.expires@, live_at(clock())); }
                     Message {
                         transaction_id: message.transaction_id,
                         body: MessageBody::Error(Error {
